@@ -44,7 +44,14 @@ def make_world(seed, mode, n_groups):
         elif mode == "file_name":
             r.file_idx = groups.index(g) % min(n_groups, 3)
             truth[r.name] = "lab%d" % r.file_idx
-    # read names may have been changed: rebuild multi-record consistency (no multimappers in this world)
+    # reads with records on several chromosomes: a supplementary (chimeric) record on chr1 for reads whose primary record is on
+    # chr2 / chr3; the read's group is still the documented one
+    from vlib.world import Read
+    prim = [r for r in w.reads if not (r.flag & 4) and r.chrom in ("chr2", "chr3")]
+    for r in rng.sample(prim, min(14, len(prim))):
+        p0 = rng.randint(1600, 2400)
+        w.reads.append(Read(r.name, "chr1", p0, [(5, 50), (0, 150)], w.seq_of("chr1", p0 + 1, p0 + 150), flag=2048 | (r.flag & 16), mapq=60,
+                            tags=list(r.tags), truth=dict(r.truth, supplementary=True), file_idx=r.file_idx))
     return w, truth, groups
 
 
